@@ -16,6 +16,8 @@ import (
 	"strings"
 	"time"
 
+	wrapping "github.com/hashicorp/go-kms-wrapping/v2"
+	"github.com/hashicorp/go-kms-wrapping/v2/aead"
 	"github.com/hashicorp/nodeenrollment"
 	"github.com/hashicorp/nodeenrollment/registration"
 	"github.com/hashicorp/nodeenrollment/rotation"
@@ -67,6 +69,7 @@ type azWorld struct {
 	foreignRW interface{}
 	trace     []string
 	rec       *recstore.Rec
+	optSeq    int
 }
 
 func (w *azWorld) log(f string, a ...any) {
@@ -81,8 +84,20 @@ func (w *azWorld) callOpts(extra ...nodeenrollment.Option) []nodeenrollment.Opti
 	if w.s.SW != nil {
 		o = append(o, nodeenrollment.WithStorageWrapper(w.s.SW))
 	}
-	if w.wrapperOn {
+	w.optSeq++
+	switch {
+	case w.wrapperOn:
 		o = append(o, nodeenrollment.WithRegistrationWrapper(w.s.RW))
+	case w.optSeq%2 == 0:
+		// the wrapper is omitted for this call by overriding the application's base list:
+		// a later option replaces an earlier one, also with "none"
+		var none wrapping.Wrapper
+		if w.optSeq%4 == 0 {
+			var typedNil *aead.Wrapper
+			none = typedNil
+		}
+		o = append(o, nodeenrollment.WithRegistrationWrapper(w.s.RW), nodeenrollment.WithRegistrationWrapper(none))
+		w.c.R.Count("registration_wrapper_switched_off_by_a_later_option", 1)
 	}
 	o = append(o, extra...)
 	return o[:len(o):len(o)]
